@@ -245,9 +245,10 @@ class Check(PropertyCheck):
                   "snapshot is a value, in-place edits cannot disturb it). Tied to the real tornado handler by differential sessions of 1-3 PUTs: status, "
                   "commit/rollback, backup, the predicted content of all 17 fields AND the predicted success/failure pattern "
                   "of every port / code / headers / trailers key (driver op `conv`) are compared.")
-    level_note = ("whether a primitive setter call succeeds is PREDICTED by the model for port, code, headers and trailers (the "
-                  "classes the statement names) and still an observed input per case (reference replay) for the string fields and "
-                  "content (str() of arbitrary JSON values, idna, charset fallback); the VALUE a successful write leaves is symbolic in the model (effect id) and resolved by "
+    level_note = ("whether a primitive setter call succeeds is PREDICTED by the model for port, code, headers, trailers (the classes "
+                  "the statement names) and for method / scheme / path / http_version / reason given as JSON scalars; it is still an "
+                  "observed input per case (reference replay) for host, content and for container values of string fields (idna, "
+                  "charset fallback, repr of containers); the VALUE a successful write leaves is symbolic in the model (effect id) and resolved by "
                   "the harness to the value recorded for that effect, so the model predicts WHICH write determines each field, not "
                   "the conversion itself; side effects of library setters on other fields (Host / Content-Length / Content-Type "
                   "lines rewritten by host, port and content setters) are outside the model and masked in the comparison. "
@@ -466,6 +467,12 @@ class Check(PropertyCheck):
                                         not (a == "request" and k == "code") and not (a == "response" and k == "port"):
                                     v = doc[a][k]
                                     conv.append(("conv int " + enc_scalar(v)) if k in ("port", "code") else ("conv hdr " + enc_container(v)))
+                                    conv_obs.append("".join(ch for ch in pat if ch in "+-"))
+                                elif not was_failed and present and not isinstance(doc[a][k], (list, dict)) and (
+                                        (a == "request" and k in ("method", "scheme", "path", "http_version")) or
+                                        (a == "response" and k in ("http_version", "reason"))):
+                                    # str(v) of a JSON scalar, then always_bytes(..., utf-8/surrogateescape) - latin-1 for the reason
+                                    conv.append(("conv latin1 " if k == "reason" else "conv utf8 ") + enc_scalar(doc[a][k]))
                                     conv_obs.append("".join(ch for ch in pat if ch in "+-"))
                         toks.append("}")
                         if not dispatched: failed = True      # falls through to "Unknown update request: ..."
